@@ -367,8 +367,8 @@ def check(ctx):
     ctx.rule("R02.1", "summaries of then / tensor / dagger / slicing / id extracted from source equal the free strict-monoidal algebra on (dom, cod, boxes, offsets)")
     ctx.rule("R02.3", "sums: term-wise then/tensor/dagger with self outermost, promotion of non-sums, typed empty unit, concatenating +")
     ctx.rule("R02.4", "dagger per box class: the rebuild binds, swaps dom/cod and is involutive (abstract construction of generic instances)")
-    check_summaries(ctx)
-    check_sums(ctx)
+    ctx.attempt(check_summaries, ctx)
+    ctx.attempt(check_sums, ctx)
     n = check_daggers(ctx)
     ctx.floor("R02.1", 20)
     ctx.floor("R02.3", 16)
